@@ -114,7 +114,7 @@ SOUP_TOKENS = [
     "|", "<<", ">>", "==", "!=", "<", ">", "~", ".", ":", "\\", "?", "\0", "\t", "\n", "\n", "identifier=1", "bank_range=0,1", "é", "x := 1", "i := 0, 2",
 ]  # fmt: skip
 SOUP_TOKENS += [c for c in "!\"#$%&'()*+,-./:;<=>?@[\\]^_`{|}~"]  # every ASCII punctuation character on its own
-SOUP_TOKENS += [".macro cy(a) {\n {{ a }}\n}\ncy({\n {{ a }}\n})", ".macro cz(a, b) {\n {{ a }}\n}\ncz({\n {{ b }}\n}, {\n {{ a }}\n})", "{\n {\n .text 'AB'\n }\n}", ".macro r() {\n r()\n}\nr()", ".macro ra() {\n rb()\n}\n.macro rb() {\n ra()\n}\nra()", ".macro q(b) {\n {{ b }}\n}\nq({\n q({\n nop\n})\n})", "{ { { { { { { {", "( ( ( ( ( ( (", "lda ((((((((1", "lda #-1", "lda -1", "#-1", "-1", ".ascii 'a fairly long string, never closed, with enough characters", "'" + "x" * 40, "lda #1 %", "lda (", "lda [", "lda #(", "lda.w #A %", ".db 1 %", "'main.s'", ".include 'main.s'", "a.b.c", "a..b", "0x", "0b", "0o7", "1e5", "lda.", "lda.w", ".", "..", ".db", ".db ,", ",,", "{{ x", "x }}", "*=", "@= 1", "x :=", "x =", "m(,)", "m((", "))"]
+SOUP_TOKENS += [".include 'missing_zq.s'", ".include 'sub/missing_zq.s'", ".include 'other.s'", ".incbin 'missing_zq.bin'", ".table 'zoo.tbl'\n.text 'AB[0x40'", ".table 'zoo.tbl'\n.text '[0x40]A[0x41'", ".table 'zoo.tbl'\n.text '[0x'", ".table 'zoo.tbl'\n.text 'A]B[C'", ".table 'zoo.tbl'\n.text '[0xZZ]'", ".table 'zoo.tbl'\n.text ''", ".macro cy(a) {\n {{ a }}\n}\ncy({\n {{ a }}\n})", ".macro cz(a, b) {\n {{ a }}\n}\ncz({\n {{ b }}\n}, {\n {{ a }}\n})", "{\n {\n .text 'AB'\n }\n}", ".macro r() {\n r()\n}\nr()", ".macro ra() {\n rb()\n}\n.macro rb() {\n ra()\n}\nra()", ".macro q(b) {\n {{ b }}\n}\nq({\n q({\n nop\n})\n})", "{ { { { { { { {", "( ( ( ( ( ( (", "lda ((((((((1", "lda #-1", "lda -1", "#-1", "-1", ".ascii 'a fairly long string, never closed, with enough characters", "'" + "x" * 40, "lda #1 %", "lda (", "lda [", "lda #(", "lda.w #A %", ".db 1 %", "'main.s'", ".include 'main.s'", "a.b.c", "a..b", "0x", "0b", "0o7", "1e5", "lda.", "lda.w", ".", "..", ".db", ".db ,", ",,", "{{ x", "x }}", "*=", "@= 1", "x :=", "x =", "m(,)", "m((", "))"]
 
 
 def lexical_bucket(text: bytes, at: int) -> str:
@@ -212,6 +212,16 @@ def apply_fault(data: bytes, f: dict[str, Any]) -> bytes:
         return data[:p] + bytes([new]) + data[p + 1 :]
     if k == "nul":
         return data[: f["a"]] + b"\0" * (f["b"] - f["a"]) + data[f["b"] :]
+    if k == "string_edit":
+        # one character inside a quoted string is lost or replaced; the quotes stay
+        spans = [(m.start() + 1, m.end() - 1) for m in re.finditer(rb"'[^'\n]{2,}'", data)]
+        if not spans:
+            return data
+        a, b = spans[f["which"] % len(spans)]
+        p = a + f["pos"] % (b - a)
+        if chr(data[p]).isdigit():
+            return data
+        return data[:p] + (b"" if f["mode"] == "delete" else bytes([f["byte"]])) + data[p + 1 :]
     if k == "garbage":
         # a run of arbitrary bytes (corrupted sector); digits are never created or altered
         rng = random.Random(f["seed"])
@@ -297,7 +307,8 @@ def soup_workload(rng: random.Random) -> dict[str, Any]:
     text = sep.join(rng.choice(SOUP_TOKENS) for _ in range(n))
     if rng.random() < 0.5:
         text = "*=0x008000\n" + text
-    return {"files": {"main.s": text.encode("utf-8")}, "roles": {"main.s": "source"}, "mapping": "low", "target": "main.s", "name": "soup"}
+    files = {"main.s": text.encode("utf-8"), "zoo.tbl": b"41=A\n42=B\n43=C\n", "other.s": b"nop\n"}
+    return {"files": files, "roles": {"main.s": "source", "zoo.tbl": "table", "other.s": "include"}, "mapping": "low", "target": "main.s", "name": "soup"}
 
 
 def gen_case(cseed: int, tier: str) -> dict[str, Any]:
@@ -342,7 +353,9 @@ def fault_menu(data: bytes, rng: random.Random, n_seeded: int) -> Iterator[list[
     toks = token_spans(data)
 
     def one() -> dict[str, Any]:
-        k = rng.choice(["lose", "lose", "dup", "dup", "swap", "flip", "nul", "truncate", "garbage", "garbage"])
+        k = rng.choice(["lose", "lose", "dup", "dup", "swap", "flip", "nul", "truncate", "garbage", "garbage", "string_edit", "string_edit"])
+        if k == "string_edit":
+            return {"kind": "string_edit", "which": rng.randrange(1000), "pos": rng.randrange(1000), "mode": rng.choice(["delete", "replace"]), "byte": ord(rng.choice("[]x'\\ ;/*{}(),.:"))}
         if k == "garbage":
             a = rng.randrange(n)
             return {"kind": "garbage", "a": a, "b": min(n, a + rng.choice([1, 1, 2, 4, 16])), "seed": rng.getrandbits(32)}
@@ -376,10 +389,10 @@ def budget1(e0: int) -> int:
     return 100 * e0 + 200_000
 
 
-def make_spec(entry: str, mapping: str, budget: int) -> dict[str, Any]:
+def make_spec(entry: str, mapping: str, budget: int, abs_paths: bool = False) -> dict[str, Any]:
     if entry == "string":
-        return {"entry": "string", "src": "main.s", "rom": mapping, "budget": budget, "range_guard": True}
-    return {"entry": "patch", "src": "main.s", "out": "out.ips", "mapping": mapping, "budget": budget, "range_guard": True}
+        return {"entry": "string", "src": "main.s", "rom": mapping, "budget": budget, "range_guard": True, "abs_paths": abs_paths}
+    return {"entry": "patch", "src": "main.s", "out": "out.ips", "mapping": mapping, "budget": budget, "range_guard": True, "abs_paths": abs_paths}
 
 
 def run_single(case: dict[str, Any], stats: Stats) -> list[Violation]:
@@ -393,7 +406,7 @@ def run_single(case: dict[str, Any], stats: Stats) -> list[Violation]:
     roles["out.ips"] = "out_ips"
     entry = case["entry"]
     e0 = int(case.get("e0") or 50_000)
-    spec = make_spec(entry, wl["mapping"], budget1(e0))
+    spec = make_spec(entry, wl["mapping"], budget1(e0), bool(case.get("abs_paths")))
     try:
         o = entries.execute_one(files, roles, spec, {}, [], mem_bytes=MEM_LIMIT, cpu_s=CPU_STAGE1_S)
     except core.ChildCpuExceeded:
@@ -425,7 +438,7 @@ def run_single(case: dict[str, Any], stats: Stats) -> list[Violation]:
     if o["kind"] != "timeout" and not mem:
         return []
     # over the first-stage budget: confirm under the hard budget
-    spec2 = make_spec(entry, wl["mapping"], HARD_BUDGET)
+    spec2 = make_spec(entry, wl["mapping"], HARD_BUDGET, bool(case.get("abs_paths")))
     try:
         o2 = entries.execute_one(files, roles, spec2, {}, [], mem_bytes=MEM_LIMIT, wall_s=900, cpu_s=CPU_STAGE2_S)
     except core.ChildCpuExceeded:
@@ -463,7 +476,7 @@ def expand(case: dict[str, Any], stats: Stats) -> Iterator[dict[str, Any]]:
     rng = core.substream(case["seed"], "faults")
     if "soup_batch" in wl:
         for s in wl["soup_batch"]:
-            yield {"type": "single", "workload": s, "faults": [], "entry": rng.choice(["string", "string", "patch"]), "e0": 50_000}
+            yield {"type": "single", "workload": s, "faults": [], "entry": rng.choice(["string", "string", "patch"]), "e0": 50_000, "abs_paths": rng.random() < 0.3}
             data = s["files"]["main.s"]
             if len(data) > 2:
                 yield {"type": "single", "workload": s, "faults": [{"kind": "truncate", "at": rng.randrange(1, len(data))}], "entry": "string", "e0": 50_000}
@@ -486,7 +499,7 @@ def expand(case: dict[str, Any], stats: Stats) -> Iterator[dict[str, Any]]:
     data = wl["files"][wl["target"]]
     for faults in fault_menu(data, rng, 150):
         entry = "patch" if rng.random() < 0.3 else "string"
-        yield {"type": "single", "workload": wl, "faults": faults, "entry": entry, "e0": e0[entry]}
+        yield {"type": "single", "workload": wl, "faults": faults, "entry": entry, "e0": e0[entry], "abs_paths": rng.random() < 0.25}
 
 
 def run_case(case: dict[str, Any], stats: Stats) -> list[Violation]:
